@@ -130,7 +130,7 @@ async def session(net, hyg, plan):
                                         f"MLST /whoami -> {pr.code} {pr.lines}"})
                     break
         p.cut("fin")
-        await w.server.close()
+        await w.stop()
         nt = any(c[0].upper().startswith(("USER", "PASS")) for c in transcript[1:])
         return {"violations": viol, "monitors": mon, "sig": sig_of(transcript), "nontrivial": nt,
                 "sample": {"users": plan["users"], "transcript": transcript[:30]}}
@@ -145,7 +145,7 @@ def run_case(case):
             return await session(net, hyg, plan)
         res, info = W.run(main, seed=plan["seed"], net_kwargs=dict(latency=0.0005))
         if res is None:
-            return {"inconclusive": info.get("deadlock") or info.get("error"), "trace": info.get("trace", "")}
+            return W.failed(info)
         for k, v in res["monitors"].items():
             out["monitors"][k] = out["monitors"].get(k, 0) + v
         if res["nontrivial"]:
